@@ -1,0 +1,58 @@
+//! Verification hooks for property C35 (mark-sweep size classes): re-exports and thin wrappers
+//! of crate-private items of `policy::marksweepspace::native_ms` and `FreeListAllocator`.
+//! No behaviour of their own.
+
+use crate::policy::marksweepspace::native_ms;
+use crate::util::alloc::FreeListAllocator;
+use crate::util::linear_scan::Region;
+use crate::util::Address;
+use crate::vm::VMBinding;
+
+pub const MAX_BIN: usize = native_ms::MAX_BIN;
+pub const MI_BIN_FULL: usize = native_ms::MI_BIN_FULL;
+pub const MAX_BIN_SIZE: usize = native_ms::MAX_BIN_SIZE;
+pub const MI_LARGE_OBJ_SIZE_MAX: usize = native_ms::MI_LARGE_OBJ_SIZE_MAX;
+pub const MAX_OBJECT_SIZE: usize = native_ms::MAX_OBJECT_SIZE;
+pub const BLOCK_BYTES: usize = native_ms::Block::BYTES;
+
+/// `mi_bin::<VM>(size, align)`: the bin the free-list allocator selects for a request.
+pub fn mi_bin<VM: VMBinding>(size: usize, align: usize) -> usize {
+    native_ms::mi_bin::<VM>(size, align)
+}
+
+/// `mi_bin_from_size(size)`: the bin for an (already padded) byte size.
+pub fn mi_bin_from_size(size: usize) -> usize {
+    native_ms::verif_mi_bin_from_size(size)
+}
+
+/// Cell size of every block list created by `new_empty_block_lists()`, indexed by bin.
+pub fn size_class_table() -> Vec<usize> {
+    native_ms::new_empty_block_lists().iter().map(|l| l.size).collect()
+}
+
+/// Cell size of every `available_blocks` list of a live allocator, indexed by bin.
+pub fn allocator_size_class_table<VM: VMBinding>(allocator: &FreeListAllocator<VM>) -> Vec<usize> {
+    allocator.available_blocks.iter().map(|l| l.size).collect()
+}
+
+/// Acquire a block from the space for the bin of `(size, align)` the way the allocation slow
+/// path does; returns the start of the block.
+pub fn acquire_global_block<VM: VMBinding>(
+    allocator: &mut FreeListAllocator<VM>,
+    size: usize,
+    align: usize,
+) -> Option<Address> {
+    allocator
+        .verif_acquire_global_block(size, align)
+        .map(|b| b.start())
+}
+
+/// Head of the free list of the block starting at `block_start`.
+pub fn block_free_list(block_start: Address) -> Address {
+    native_ms::Block::from_aligned_address(block_start).load_free_list()
+}
+
+/// Cell size recorded for the block starting at `block_start`.
+pub fn block_cell_size(block_start: Address) -> usize {
+    native_ms::Block::from_aligned_address(block_start).load_block_cell_size()
+}
